@@ -328,7 +328,7 @@ func alphabet(full bool) []op {
 		{K: oAnn, Peer: "p", Item: 1}, {K: oAnn, Peer: "q", Item: 1}, {K: oAnn, Peer: "p", Item: 2},
 		{K: oRecv, Item: 1}, {K: oIntOff, Item: 1}, {K: oIntOn, Item: 1},
 		{K: oSuspOn}, {K: oSuspOff},
-		{K: oAdvance, D: arrive / 8}, {K: oAdvance, D: arrive + time.Millisecond}, {K: oAdvance, D: 2*arrive + slack},
+		{K: oAdvance, D: arrive / 8}, {K: oAdvance, D: arrive + time.Millisecond}, {K: oAdvance, D: 2*arrive + slack}, {K: oAdvance, D: 4 * arrive},
 	}
 	if full {
 		a = append(a, op{K: oAnnBoth, Peer: "q"}, op{K: oRecv, Item: 2}, op{K: oIntOff, Item: 2}, op{K: oAdvance, D: forget + arrive/8})
